@@ -356,9 +356,6 @@ func genC12(c *h.Ctx) {
 		steps := 1 + r.Intn(5)
 		for s := 0; s < steps; s++ {
 			k := r.Intn(8)
-			if r.Chance(8) {
-				k = 7
-			}
 			na := 1 + r.Intn(limits[k])
 			switch r.Intn(25) {
 			case 0:
@@ -369,7 +366,11 @@ func genC12(c *h.Ctx) {
 			var as []string
 			for j := 0; j < na; j++ {
 				if k == 7 {
-					as = append(as, hx(randTime(r, bt)))
+					if r.Chance(75) {
+						as = append(as, hx(float64(int64(r.U64()%17280000000000001)-8640000000000000)))
+					} else {
+						as = append(as, hx(randTime(r, bt)))
+					}
 				} else if j < len(fieldIdx[k]) {
 					as = append(as, hx(randField(r, fieldIdx[k][j])))
 				} else {
